@@ -189,7 +189,7 @@ pub (crate) fn bid_bid_nr_digits256(R256: &BID_UINT256) -> i32 {
         // between 1 and 19 digits
         ind = BID_TEN2K64[1..=19]
             .iter().enumerate()
-            .take_while(|&(_, x)| R256.w[0] < *x)
+            .take_while(|&(_, x)| R256.w[0] >= *x)
             .count() as i32;
         ind += 1;
         // ind digits
@@ -2967,7 +2967,7 @@ pub (crate) fn bid128_ext_fma(
                         // between 1 and 19 digits
                         ind = BID_TEN2K64[1..=19]
                             .iter().enumerate()
-                            .take_while(|&(_, x)| R256.w[0] < *x)
+                            .take_while(|&(_, x)| res.w[0] >= *x)
                             .count() as i32;
                         ind += 1;
                         // ind digits
@@ -2980,7 +2980,7 @@ pub (crate) fn bid128_ext_fma(
                         ind = BID_TEN2K128[1..=18]
                             .iter().enumerate()
                             .take_while(|&(_, d)|
-                                    res.w[1]  < d.w[1] || (res.w[1] == d.w[1] && res.w[0]  < d.w[0])
+                                    !(res.w[1]  < d.w[1] || (res.w[1] == d.w[1] && res.w[0]  < d.w[0]))
                             ).count() as i32;
                         ind += 1;
                         // ind + 20 digits
